@@ -23,6 +23,35 @@ See the included GPLv3 LICENSE file
 namespace nifly {
 constexpr auto NIF_NPOS = static_cast<uint32_t>(-1);
 
+#ifdef NIFLY_VERIF
+} // namespace nifly
+#include <typeinfo>
+#include <type_traits>
+namespace nifly {
+class NiRef;
+class NiStringRef;
+class NiObject;
+namespace verif {
+enum class FieldKind : uint8_t { Bool, Enum, Int, Float, Struct, Half, Count, StrLen, BlockRef, StringRef };
+struct SyncHooks {
+	virtual ~SyncHooks() = default;
+	virtual void Field(bool, FieldKind, size_t, void*, const std::type_info*) {}
+	virtual void BlockRef(bool, NiRef*, const std::type_info*, std::streamsize) {}
+	virtual void StringRef(bool, NiStringRef*, std::streamsize) {}
+	virtual void Block(bool, uint32_t, NiObject*) {}
+};
+extern SyncHooks* g_hooks;
+template<typename T>
+constexpr FieldKind KindOf() {
+	if constexpr (std::is_same_v<T, bool>) return FieldKind::Bool;
+	else if constexpr (std::is_enum_v<T>) return FieldKind::Enum;
+	else if constexpr (std::is_integral_v<T>) return FieldKind::Int;
+	else if constexpr (std::is_floating_point_v<T>) return FieldKind::Float;
+	else return FieldKind::Struct;
+}
+} // namespace verif
+#endif
+
 constexpr auto NiCharMin = std::numeric_limits<char>::min();
 constexpr auto NiCharMax = std::numeric_limits<char>::max();
 constexpr auto NiByteMin = std::numeric_limits<uint8_t>::min();
@@ -289,6 +318,10 @@ public:
 
 	template<typename T>
 	void Sync(T& t) {
+#ifdef NIFLY_VERIF
+		if (verif::g_hooks)
+			verif::g_hooks->Field(mode == Mode::Reading, verif::KindOf<T>(), sizeof(T), &t, &typeid(T));
+#endif
 		Sync(reinterpret_cast<char*>(&t), sizeof(T));
 	}
 
@@ -347,6 +380,10 @@ public:
 		if (mode == Mode::Writing)
 			halfData = fl;
 
+#ifdef NIFLY_VERIF
+		if (verif::g_hooks)
+			verif::g_hooks->Field(mode == Mode::Reading, verif::FieldKind::Half, 2, &fl, nullptr);
+#endif
 		Sync(reinterpret_cast<char*>(&halfData), 2);
 
 		if (mode == Mode::Reading)
@@ -604,6 +641,10 @@ public:
 
 		sz = Base::size();
 
+#ifdef NIFLY_VERIF
+		if (verif::g_hooks)
+			verif::g_hooks->Field(stream.GetMode() == NiStreamReversible::Mode::Reading, verif::FieldKind::Count, NumSize, &sz, nullptr);
+#endif
 		stream.Sync(reinterpret_cast<char*>(&sz), NumSize);
 		return sz;
 	}
@@ -652,6 +693,10 @@ public:
 
 		sz = Base::size();
 
+#ifdef NIFLY_VERIF
+		if (verif::g_hooks)
+			verif::g_hooks->Field(stream.GetMode() == NiStreamReversible::Mode::Reading, verif::FieldKind::Count, NumSize, &sz, nullptr);
+#endif
 		stream.Sync(reinterpret_cast<char*>(&sz), NumSize);
 		return sz;
 	}
@@ -697,6 +742,10 @@ public:
 
 	void Read(NiIStream& stream) {
 		SizeType sz = 0;
+#ifdef NIFLY_VERIF
+		if (verif::g_hooks)
+			verif::g_hooks->Field(true, verif::FieldKind::Count, NumSize, &sz, nullptr);
+#endif
 		stream.read(reinterpret_cast<char*>(&sz), NumSize);
 
 		Base::resize(sz);
@@ -737,6 +786,10 @@ public:
 
 	void Read(NiIStream& stream) {
 		SizeType sz = 0;
+#ifdef NIFLY_VERIF
+		if (verif::g_hooks)
+			verif::g_hooks->Field(true, verif::FieldKind::Count, NumSize, &sz, nullptr);
+#endif
 		stream.read(reinterpret_cast<char*>(&sz), NumSize);
 
 		Base::resize(sz);
@@ -772,7 +825,15 @@ public:
 	NiBlockRef() {}
 	NiBlockRef(const uint32_t id) { NiRef::index = id; }
 
+#ifndef NIFLY_VERIF
 	void Sync(NiStreamReversible& stream) { stream.Sync(base::index); }
+#else
+	void Sync(NiStreamReversible& stream) {
+		if (verif::g_hooks)
+			verif::g_hooks->BlockRef(stream.GetMode() == NiStreamReversible::Mode::Reading, this, &typeid(T*), stream.asWrite() ? stream.asWrite()->GetBlockSize() : -1);
+		stream.Sync(base::index);
+	}
+#endif
 };
 
 template<typename T>
@@ -846,6 +907,10 @@ public:
 		if (stream.GetMode() == NiStreamReversible::Mode::Writing)
 			CleanInvalidRefs();
 
+#ifdef NIFLY_VERIF
+		if (verif::g_hooks)
+			verif::g_hooks->Field(stream.GetMode() == NiStreamReversible::Mode::Reading, verif::FieldKind::Count, 4, &arraySize, nullptr);
+#endif
 		stream.Sync(arraySize);
 		refs.resize(arraySize);
 
@@ -910,6 +975,10 @@ public:
 		if (stream.GetMode() == NiStreamReversible::Mode::Writing)
 			base::CleanInvalidRefs();
 
+#ifdef NIFLY_VERIF
+		if (verif::g_hooks)
+			verif::g_hooks->Field(stream.GetMode() == NiStreamReversible::Mode::Reading, verif::FieldKind::Count, 2, &arraySize, nullptr);
+#endif
 		stream.Sync(reinterpret_cast<char*>(&arraySize), 2);
 		refs.resize(arraySize);
 
